@@ -22,6 +22,7 @@ RULE = ('random core and IOAPI files (float and small-integer payloads, '
         '>= 2; distinct = digest of (file spec, functions).')
 RULE += (" Every tenth receiver is the object one of the library's READERS returns for a valid image written by the independent codecs (CAMx memory-mapped and record readers, bpch1, bpch2, arlpackedbit, ffi1001); the call is drawn from the dimensions of the open file and judged by the same oracle on a snapshot of that file.")
 RULE += (' IOAPI files may carry a variable without dimensions.')
+RULE += (' One receiver from disk in three (plain files) is written with netCDF4 directly, as other tools write archive files: float data variables packed (int16 with scale_factor/add_offset), masks as _FillValue; the oracle snapshots what the opened file delivers.')
 ASSUMPTIONS = [
     'reference = explicit masked reductions with np.where/count on float64 '
     '(exact ints) copies; callables via numpy.ma.apply_along_axis',
@@ -231,7 +232,7 @@ def run_file(spec, res, d, h, f, ioapi):
             dv = f.createVariable('decoy', 'f', (d0 + 'p1',))
             dv[:] = [1.5, 2.5, 4.0]
     if spec.get('disk'):
-        g = harness.to_disk(f, d, h, fmt='ioapi' if 'ioapi' in spec['file']
+        g = harness.to_disk(f, d, h, res=res, foreign=True, fmt='ioapi' if 'ioapi' in spec['file']
                             else 'netcdf')
         if g is not None:
             f = g
